@@ -1,11 +1,23 @@
+# libFuzzer targets (clang++-14).  The repository as a whole does not compile with clang 14 + libstdc++ 12
+# (src/core/UpdateCheck.cpp: std::map of an incomplete type inside itself), so this flavour compiles only the
+# translation units the decoders need, straight from the working tree, instead of add_subdirectory().
+add_library(fzcore STATIC
+  ${VERIF_REPO}/src/protocol/Message.cpp
+  ${VERIF_REPO}/src/protocol/Manifest.cpp
+  ${VERIF_REPO}/src/crypto/Sha256.cpp
+  ${VERIF_REPO}/src/crypto/HmacSha256.cpp
+  ${VERIF_REPO}/src/crypto/ChaCha20.cpp
+  ${VERIF_REPO}/src/crypto/CryptoManager.cpp
+  ${VERIF_REPO}/src/crypto/Shamir.cpp
+  ${VERIF_REPO}/src/core/Types.cpp)
+target_include_directories(fzcore PUBLIC ${VERIF_REPO}/include)
 function(verif_fuzzer name)
   add_executable(${name} ${ARGN})
-  target_link_libraries(${name} PRIVATE ephemeralnet::core OpenSSL::Crypto)
+  target_link_libraries(${name} PRIVATE fzcore OpenSSL::Crypto)
   target_include_directories(${name} PRIVATE ${VERIF_REPO}/include ${VERIF_REPO} ${CMAKE_CURRENT_SOURCE_DIR} ${CMAKE_CURRENT_SOURCE_DIR}/fuzz)
   target_compile_options(${name} PRIVATE -Wno-unused-function)
   target_link_options(${name} PRIVATE -fsanitize=fuzzer,address,undefined)
 endfunction()
 verif_fuzzer(fz_message fuzz/fz_message.cpp)
 verif_fuzzer(fz_manifest fuzz/fz_manifest.cpp)
-verif_fuzzer(fz_meta fuzz/fz_meta.cpp)
 verif_fuzzer(fz_stun fuzz/fz_stun.cpp tu_stun.cpp)
